@@ -400,6 +400,33 @@ func (v *c11Impl) exec(op string) (out string, extra []string) {
 			return "bad-op", nil
 		}
 		res = v.fetch(r)
+	case "getc":
+		// a fetch whose request context is already cancelled (client gone / deadline passed):
+		// it may fail, or answer — but then with the right value — and must cache nothing wrong
+		r, ok := c11ParseRef(f[1], f[2], f[3])
+		if !ok {
+			return "bad-op", nil
+		}
+		if p := v.part(); p == nil || p.IsPaused() {
+			// a fetch on a paused cursors partition resumes it whatever becomes of the call;
+			// that interplay is not what this op is about
+			res = v.fetch(r)
+			break
+		}
+		cctx, ccancel := context.WithCancel(context.Background())
+		if len(f) > 4 {
+			us, _ := strconv.Atoi(f[4])
+			go func() { time.Sleep(time.Duration(us) * time.Microsecond); ccancel() }()
+		} else {
+			ccancel()
+		}
+		resp, err := v.s.api.FetchCursor(cctx, &client.FetchCursorRequest{Stream: r.stream, Partition: r.part, CursorId: r.id})
+		ccancel()
+		if err != nil {
+			res = "err " + c11Err(err)
+		} else {
+			res = fmt.Sprintf("ok %d", resp.Offset)
+		}
 	case "lookup":
 		tid, _ := strconv.Atoi(f[1])
 		r, ok := c11ParseRef(f[2], f[3], f[4])
@@ -576,6 +603,7 @@ func (h *c11Harness) run(prog []string, record bool) (fails []vFailure) {
 	byKey := map[string]map[c11Ref]bool{}
 	retention := strings.Contains(prog[0], "maxmsgs=") || strings.Contains(prog[0], "maxbytes=")
 	staleKeys := map[c11Ref]bool{}
+	cancelledKeys := map[c11Ref]bool{}
 	overlapped := map[int]bool{}
 	cleanDuring := map[int]bool{}
 	var specFail, specTag, disagree string
@@ -597,6 +625,9 @@ func (h *c11Harness) run(prog []string, record bool) (fails []vFailure) {
 		}
 		if staleKeys[r] {
 			return "cursor-cache-stale-after-concurrent-set"
+		}
+		if cancelledKeys[r] && got == -1 {
+			return "cursor-absent-after-cancelled-fetch"
 		}
 		if retention && got == -1 {
 			return "cursor-lost-to-retention"
@@ -621,6 +652,13 @@ func (h *c11Harness) run(prog []string, record bool) (fails []vFailure) {
 		if f[0] == "finish" && strings.HasPrefix(out, "err") {
 			mop = "abort " + f[1] // the call failed: nothing cached
 		}
+		if f[0] == "getc" {
+			if strings.HasPrefix(out, "err") {
+				mop = "state" // the cancelled call failed: no effect at all
+			} else {
+				mop = "get " + strings.Join(f[1:4], " ") // it answered: an ordinary fetch
+			}
+		}
 		m := h.model.Ask1("c11 " + mop)
 		sent = append(sent, mop)
 		for _, e := range extra {
@@ -634,7 +672,7 @@ func (h *c11Harness) run(prog []string, record bool) (fails []vFailure) {
 		}
 		// correspondence
 		cmpImpl, cmpMod := out, m
-		if strings.HasPrefix(mop, "abort") {
+		if strings.HasPrefix(mop, "abort") || (f[0] == "getc" && mop == "state") {
 			if k := strings.Index(out, " | "); k >= 0 {
 				cmpImpl = "ok" + out[k:]
 			}
@@ -670,14 +708,17 @@ func (h *c11Harness) run(prog []string, record bool) (fails []vFailure) {
 			} else {
 				fail(i, "SetCursor failed: "+res, "set-error")
 			}
-		case "get", "lookup", "finish", "sub":
+		case "get", "getc", "lookup", "finish", "sub":
 			var r c11Ref
 			var allowed map[int64]bool
 			tid := -1
 			switch f[0] {
-			case "get":
+			case "get", "getc":
 				r, _ = c11ParseRef(f[1], f[2], f[3])
 				allowed = map[int64]bool{want(r): true}
+				if f[0] == "getc" {
+					cancelledKeys[r] = true
+				}
 			case "lookup":
 				tid, _ = strconv.Atoi(f[1])
 				r, _ = c11ParseRef(f[2], f[3], f[4])
@@ -697,11 +738,11 @@ func (h *c11Harness) run(prog []string, record bool) (fails []vFailure) {
 			for t2, c := range v.calls {
 				h.lastCall[t2] = c
 			}
-			answered := strings.HasPrefix(res, "ok ") && (f[0] == "get" || f[0] == "finish" || (f[0] == "sub" && len(extra) > 0)) ||
+			answered := strings.HasPrefix(res, "ok ") && (f[0] == "get" || f[0] == "getc" || f[0] == "finish" || (f[0] == "sub" && len(extra) > 0)) ||
 				strings.HasPrefix(res, "hit ")
 			if answered {
 				got, _ := strconv.ParseInt(strings.Fields(res)[1], 10, 64)
-				hit := strings.HasPrefix(res, "hit ") || (f[0] == "get" && strings.Contains(","+c11Field(prevState, "cache"), ","+hex.EncodeToString([]byte(fmt.Sprintf("%s,%s,%d", r.id, r.stream, r.part)))+"="))
+				hit := strings.HasPrefix(res, "hit ") || ((f[0] == "get" || f[0] == "getc") && strings.Contains(","+c11Field(prevState, "cache"), ","+hex.EncodeToString([]byte(fmt.Sprintf("%s,%s,%d", r.id, r.stream, r.part)))+"="))
 				if record {
 					switch {
 					case hit:
@@ -720,6 +761,10 @@ func (h *c11Harness) run(prog []string, record bool) (fails []vFailure) {
 				}
 				if (f[0] == "finish" || f[0] == "sub") && overlapped[tid] {
 					staleKeys[r] = true
+				}
+			} else if strings.HasPrefix(res, "err") && f[0] == "getc" {
+				if record {
+					h.res.Dist("fetch:cancelled-failed")
 				}
 			} else if strings.HasPrefix(res, "err") && f[0] != "lookup" {
 				tag := "fetch-error"
@@ -903,6 +948,26 @@ func TestVerifC11(t *testing.T) {
 		h.check(c11Random(rnd, it, vThorough()))
 	}
 
+	// ---- fetches abandoned by their client while the reverse scan is running ----
+	// (the request context is cancelled after a random delay; the cursor looked up is the oldest
+	// record, so the scan is as long as the log)
+	{
+		reps, rounds := 120, 1
+		if vThorough() {
+			rounds = 6
+		}
+		for round := 0; round < rounds && len(res.Failures) < 45; round++ {
+			prog := []string{"begin 4000 - 1 SUBJ", fmt.Sprintf("set %s %s 0 7", a, st)}
+			for i := 0; i < 150; i++ {
+				prog = append(prog, fmt.Sprintf("set %s %s 0 %d", b, st, i))
+			}
+			for i := 0; i < reps; i++ {
+				prog = append(prog, "evict", fmt.Sprintf("getc %s %s 0 %d", a, st, rnd.Intn(1200)), fmt.Sprintf("get %s %s 0", a, st))
+			}
+			h.check(prog)
+		}
+	}
+
 	// ---- more keys than the real cache holds (cursorCacheSize) ----
 	if vThorough() {
 		prog := []string{"begin 4000 - 1 SUBJ"}
@@ -1007,8 +1072,15 @@ func c11Random(rnd *vRand, it int, thorough bool) []string {
 			} else {
 				prog = append(prog, "pause")
 			}
-		case x < 98:
+		case x < 97:
 			prog = append(prog, fmt.Sprintf("cache %d", rnd.Intn(2)))
+		case !steps:
+			// a fetch abandoned by its client, then (usually) a proper one for the same cursor
+			r := ref()
+			prog = append(prog, "getc "+r)
+			if rnd.Intn(4) != 0 {
+				prog = append(prog, "get "+r)
+			}
 		default:
 			prog = append(prog, "get "+ref())
 		}
